@@ -98,11 +98,79 @@ fn roff_record(seed: u64, thorough: bool, shards: usize, prefix: &str) -> Value 
     json!({"summary":{"events":n}})
 }
 
+fn col_json(c: anstyle::Color) -> Value {
+    match c {
+        anstyle::Color::Ansi(a) => {
+            let i = anstyle::Ansi256Color::from_ansi(a).index();
+            json!(["ansi", i])
+        }
+        anstyle::Color::Ansi256(a) => json!(["idx", a.0]),
+        anstyle::Color::Rgb(r) => json!(["rgb", r.0, r.1, r.2]),
+    }
+}
+
+/// SGR-rich texts whose visible text is representable in XML 1.0 (no FF, no U+FFFE/U+FFFF, CR only before LF)
+fn svg_text(r: &mut rng::Rng, target: usize) -> String {
+    let raw = gen::gen_styled_text(r, target, true);
+    let s = String::from_utf8(raw).unwrap();
+    let mut out = String::new();
+    let chars: Vec<char> = s.chars().collect();
+    for (i, c) in chars.iter().enumerate() {
+        match *c {
+            '\u{c}' | '\u{fffe}' | '\u{ffff}' => out.push(' '),
+            '\r' => {
+                if chars.get(i + 1) == Some(&'\n') {
+                    out.push('\r')
+                }
+            }
+            c => out.push(c),
+        }
+    }
+    out
+}
+
+fn svg_record(seed: u64, n: u64, target: usize, path: &str) -> Value {
+    let mut w = std::io::BufWriter::new(std::fs::File::create(path).unwrap());
+    let mut r = rng::Rng::new(seed);
+    for k in 0..n {
+        let input = match k % 7 {
+            0 => format!("{}\r\n<a&b> \"q\" ]]>\n", svg_text(&mut r, target / 2)),
+            1 => format!("\x1b[7m inverted \x1b[31;42m both \x1b[27;0m{}", svg_text(&mut r, target / 2)),
+            // fragments made only of zero-width characters: a combining mark between two style changes, a line of U+200B
+            2 => format!("e\x1b[31m\u{301}\x1b[0m!\n\u{200b}\n\x1b[4m\u{200d}\x1b[24;1mx{}", svg_text(&mut r, target / 2)),
+            _ => svg_text(&mut r, target),
+        };
+        let (pname, pal) = if r.chance(1, 2) { ("VGA", anstyle_svg::VGA) } else { ("WIN10", anstyle_svg::WIN10_CONSOLE) };
+        let fg = match r.below(4) {
+            0 => anstyle::Color::Ansi(anstyle::AnsiColor::Green),
+            1 => anstyle::Color::Rgb(anstyle::RgbColor(0x12, 0x34, 0x56)),
+            _ => anstyle::Color::Ansi(anstyle::AnsiColor::White),
+        };
+        let bg = match r.below(4) {
+            0 => anstyle::Color::Ansi256(anstyle::Ansi256Color(236)),
+            1 => anstyle::Color::Rgb(anstyle::RgbColor(0xab, 0xcd, 0xef)),
+            _ => anstyle::Color::Ansi(anstyle::AnsiColor::Black),
+        };
+        let background = r.chance(2, 3);
+        let term = anstyle_svg::Term::new().palette(pal).fg_color(fg).bg_color(bg).background(background);
+        let svg = match catch_unwind(AssertUnwindSafe(|| term.render_svg(&input))) {
+            Ok(s) => s,
+            Err(_) => "<panic".to_string(),
+        };
+        let palj: Vec<Value> = pal.0.iter().map(|c| json!([c.r(), c.g(), c.b()])).collect();
+        writeln!(w, "{}", json!({"in":input.as_bytes(),"cfg":{"palette":pname,"pal":palj,"fg":col_json(fg),"bg":col_json(bg),"background":background,"padding":10},"svg":svg})).unwrap();
+    }
+    w.flush().unwrap();
+    json!({"summary":{"events":n}})
+}
+
 fn main() {
     std::panic::set_hook(Box::new(|_| {}));
     let args: Vec<String> = std::env::args().collect();
     match args.get(1).map(|s| s.as_str()) {
         Some("roff-record") => println!("{}", roff_record(args[2].parse().unwrap(), args[3] == "1", args[4].parse().unwrap(), &args[5])),
+        // svg-record <seed> <n> <target> <out>
+        Some("svg-record") => println!("{}", svg_record(args[2].parse().unwrap(), args[3].parse().unwrap(), args[4].parse().unwrap(), &args[5])),
         Some("roff") | Some("svg") => {
             let input: Vec<u8> = serde_json::from_str(&args[2]).unwrap();
             let s = String::from_utf8(input).unwrap();
